@@ -3,6 +3,8 @@ package props
 import (
 	"fmt"
 
+	"github.com/kstenerud/go-concise-encoding/ce"
+
 	"github.com/kstenerud/go-concise-encoding/configuration"
 
 	"pgregory.net/rapid"
@@ -19,6 +21,22 @@ import (
 type C18Case struct {
 	C05Case
 	IntFmt uint8 `json:"int_fmt"` // Encoder.CTE.DefaultNumericFormats.Int / Uint / BinaryFloat (0 = decimal, 4..9; floats 0, 8, 9)
+	// FailAt > 0: the value is marshaled once more, to a writer that accepts FailAt-1 bytes (modulo the
+	// document's length) and then fails: a call that ends in an error must leave the value alone too
+	FailAt int `json:"fail_at,omitempty"`
+}
+
+// c18LimitWriter accepts a number of bytes, then fails every write.
+type c18LimitWriter struct{ left int }
+
+func (w *c18LimitWriter) Write(p []byte) (int, error) {
+	if len(p) <= w.left {
+		w.left -= len(p)
+		return len(p), nil
+	}
+	n := w.left
+	w.left = 0
+	return n, fmt.Errorf("c18: destination full")
 }
 
 func init() {
@@ -36,6 +54,9 @@ func init() {
 			c.Recursion = rapid.IntRange(0, 3).Draw(t, "recursion") == 0
 			c.Omit = rapid.SampledFrom([]string{"empty", "never", "zero"}).Draw(t, "omit")
 			c.Camel = rapid.Bool().Draw(t, "camel")
+			if rapid.Bool().Draw(t, "failing") {
+				c.FailAt = rapid.IntRange(1, 300).Draw(t, "failat")
+			}
 			return c
 		},
 		Check: func(ci interface{}, ctx *Ctx) error {
@@ -92,6 +113,24 @@ func init() {
 			}
 			if err := gen.Check(value, c.Type, c.Val, gen.EqMode{Strict: true}, "$"); err != nil {
 				return fmt.Errorf("marshaling (%s) modified the value: %v\ntype=%v", c.Format, err, c.Type)
+			}
+			if c.FailAt > 0 {
+				doc, _, _ := marshalDoc(ctx, c.Format, iface, cfg)
+				w := &c18LimitWriter{left: (c.FailAt - 1) % (len(doc) + 1)}
+				ctx.Label("marshal to a destination that fails part-way")
+				o := ctx.Guard(func() {
+					if c.Format == "cbe" {
+						ce.MarshalCBE(iface, w, cfg)
+					} else {
+						ce.MarshalCTE(iface, w, cfg)
+					}
+				})
+				if o.TimedOut || o.Panic != nil {
+					return nil // C07 / C29 territory
+				}
+				if err := gen.Check(value, c.Type, c.Val, gen.EqMode{Strict: true}, "$"); err != nil {
+					return fmt.Errorf("a marshal call (%s) that failed after %d bytes modified the value: %v\ntype=%v", c.Format, (c.FailAt-1)%(len(doc)+1), err, c.Type)
+				}
 			}
 			return nil
 		},
